@@ -147,12 +147,20 @@ def run_history(c, tmp, idx):
                 np.random.seed(rng.randint(0, 10 ** 6))
                 crop = ss[who].Crop(name=f"c{step}", parent_dir=d, batchsize=rng.randint(1, 3))
                 crop.sow_samples(n, combos=combos, verbosity=0, **kc)
-                crop.grow_missing(verbosity=0)
-                if rng.random() < 0.25:
-                    # sown again before reaping: NEW samples are drawn, the rows reaped are theirs
-                    steps[-1].append("resown")
+                r2 = rng.random()
+                if r2 < 0.15:
+                    # only the first batch is grown before the crop is sown again: that result is stale too
+                    steps[-1].append("resown-partly-grown")
+                    crop.grow(1, verbosity=0)
                     crop.sow_samples(n, combos=combos, verbosity=0, **kc)
                     crop.grow_missing(verbosity=0)
+                else:
+                    crop.grow_missing(verbosity=0)
+                    if r2 < 0.4:
+                        # sown again before reaping: NEW samples are drawn, the rows reaped are theirs
+                        steps[-1].append("resown")
+                        crop.sow_samples(n, combos=combos, verbosity=0, **kc)
+                        crop.grow_missing(verbosity=0)
                 last = crop.reap()
             else:
                 ss[who] = new_sampler()
